@@ -141,6 +141,7 @@ def explore(ctx):
     pre_jobs = [(c.query, c.inp, 'json', ()) for c in pre_cases]
     pre_out = aglib.run_impl_many(pre_jobs)
     second = []
+    pre_kind = {}
     for (r, prefix, last), pc, po in zip(oracle_jobs, pre_cases, pre_out):
         p = aglib.parse_impl_json(po, aglib.is_agg_query(prefix))
         if p['kind'] not in ('rows', 'table'):
@@ -150,6 +151,7 @@ def explore(ctx):
             # -o json prints a missing cell and a null cell alike: the round trip would be lossy
             second.append(None)
             continue
+        pre_kind[len(second)] = p['kind']
         lines = rows_to_lines(p['rows'])
         second.append(Case(r['case'].cid + '-last', STAR, [('json', None), last], lines))
     idx = [i for i, c in enumerate(second) if c is not None]
@@ -168,7 +170,17 @@ def explore(ctx):
         a = [aglib.canon_key(nonull(x)) for x in full['rows']]
         b = [aglib.canon_key(nonull(x)) for x in s['rows']]
         fixed = order_fixed(r['case'].stages) and order_fixed(prefix)
-        ok = (a == b) if fixed else (sorted(a) == sorted(b))
+        # a sorter breaks ties by all columns IN COLUMN ORDER; a table re-fed as records has its columns
+        # rediscovered in sorted-name order, so within ties the two runs may legitimately differ:
+        # compare the rows as a multiset and the sequence of sort keys
+        tie_sensitive = last[0] in ('sort', 'agg') and pre_kind[i] == 'table'
+        if fixed and tie_sensitive:
+            ok = sorted(a) == sorted(b)
+            if ok and last[0] == 'sort' and all(e[0] == 'col' and not e[2] for e in last[1]):
+                keyseq = lambda rows: [aglib.canon_key([row.get(e[1]) for e in last[1]]) for row in rows]
+                ok = keyseq(full['rows']) == keyseq(s['rows'])
+        else:
+            ok = (a == b) if fixed else (sorted(a) == sorted(b))
         if not ok:
             failures.append({'kind': 'spec',
                              'what': 'running the whole pipeline differs from running the last stage on the complete output of the stages before it',
